@@ -427,6 +427,64 @@ def in_child_timeout(fn, timeout, *args):
     return ("ok", val)
 
 
+INTERPRETER_MODES = (("-O",), ("-OO",), ("-W", "error"), ("-W", "error", "-O", "-X", "dev"))
+
+
+def interpreter_modes(pid, cases, st, modes=INTERPRETER_MODES):
+    """
+    The host's interpreter configuration is an environment dimension too: the given cases of check
+    `pid` are judged again, by the check's own judge(), in child interpreters started with each
+    set of flags (assert statements and docstrings stripped, warnings turned into errors, the
+    development mode).  Violations found there are added to `st`; the case records the flags so that
+    a replay restarts the interpreter the same way.
+    """
+    import pickle  # pylint: disable=import-outside-toplevel
+    import subprocess  # pylint: disable=import-outside-toplevel
+    import tempfile  # pylint: disable=import-outside-toplevel
+
+    cases = list(cases)
+    fd, path = tempfile.mkstemp(prefix=f"{pid}-modes-", suffix=".pickle", dir="/var/tmp")
+    try:
+        with os.fdopen(fd, "wb") as fh:
+            pickle.dump({"pid": pid, "cases": cases}, fh)
+        procs = []
+        for flags in modes:
+            env = dict(os.environ, VERIF_INTERP="1")
+            procs.append((flags, subprocess.Popen(
+                [sys.executable, *flags, os.path.join(VERIF, "run.py"), "--judge-file", path],
+                stdout=subprocess.PIPE, stderr=subprocess.PIPE, env=env)))
+        for flags, proc in procs:
+            try:
+                so, se = proc.communicate(timeout=900)
+            except subprocess.TimeoutExpired:
+                proc.kill()
+                so, se = proc.communicate()
+                so = b""
+            tag = " ".join(flags)
+            found = None
+            for line in so.decode("utf-8", "replace").splitlines():
+                if line.startswith("MODE-RESULT "):
+                    found = json.loads(line[12:])
+            if found is None:
+                out = Outcome()
+                out.bad("interpreter-mode:unusable",
+                        f"under `python {tag}` the cases could not be judged at all (exit "
+                        f"{proc.returncode}): {se.decode('utf-8', 'replace')[-400:]}")
+                st.add(dict(cases[0], interp_flags=list(flags)), out)
+                continue
+            for idx, viols in found["violations"]:
+                out = Outcome()
+                for sig, msg in viols:
+                    out.bad(f"{sig}:interpreter-mode", f"under `python {tag}`: {msg}")
+                st.add(dict(cases[idx], interp_flags=list(flags)), out)
+            st.extra["interpreter_mode_cases"] = st.extra.get("interpreter_mode_cases", 0) + found["judged"]
+    finally:
+        try:
+            os.unlink(path)
+        except OSError:
+            pass
+
+
 def check_deterministic(judge, case):
     """
     Harness determinism: the same case judged in two separately forked children of this
